@@ -181,7 +181,7 @@ package hybridbuffer
 //@ func (feeder *outputFeeder) saveEverything(lastInputChunk base.LogChunk)
 //@   requires validfeeder(feeder)
 //@   modifies everything
-//@   preserves outputFeeder.*, chunkManager.*, chunkOperator.*, chunkManagerMetrics.*, chunkOperatorMetrics.*, bufferMetrics.*
+//@   preserves outputFeeder.*, chunkManager.*, chunkOperator.*, chunkManagerMetrics.*, chunkOperatorMetrics.*, bufferMetrics.*, lasthandback
 //@   ensures[everything-taken-is-saved-or-counted] resolved - nrecv(feeder.inputChannel) - nrecv(feeder.outputChannel)
 //@        == old(resolved - nrecv(feeder.inputChannel) - nrecv(feeder.outputChannel)) + (len(lastInputChunk.ID) > 0 ? 1 : 0)
 //@   ensures[balance] bal(&feeder.chunkMan) == old(bal(&feeder.chunkMan))
